@@ -90,29 +90,6 @@ class Report:
         return f"<report {self.rtype} {list(self.fields) if isinstance(self.fields, dict) else self.fields}>"
 
 
-_QCACHE = {}
-
-
-def has_quant(e):
-    """does the z3 term contain a quantifier (or lambda)?"""
-    k = e.get_id()
-    if k in _QCACHE:
-        return _QCACHE[k][1]
-    seen, stack, res = set(), [e], False
-    while stack:
-        x = stack.pop()
-        i = x.get_id()
-        if i in seen:
-            continue
-        seen.add(i)
-        if z3.is_quantifier(x):
-            res = True
-            break
-        stack.extend(x.children())
-    _QCACHE[k] = (e, res)      # keep the term alive: z3 reuses ids of collected ASTs
-    return res
-
-
 class St:
     """path state: quantifier-free path condition, quantified facts (kept out of feasibility queries),
     ghost report log"""
@@ -955,7 +932,7 @@ class Exec:
                     yield BoundM(r, fv), st
         elif isinstance(r, Opaque):
             yield Builtin("opaque." + attr), st
-        elif isinstance(r, (tuple, list, EmptyColl, PyDict, PySet, str)):
+        elif isinstance(r, (tuple, list, EmptyColl, PyDict, PySet, str)) or type(r).__name__ in ("SuccessV", "FailureV", "MapView"):
             yield ValMethod(r, attr), st
         elif isinstance(r, Builtin):
             yield Builtin(r.name + "." + attr), st
@@ -1207,6 +1184,17 @@ class Exec:
     def call_opaque(self, key, fv, bound, st, where):
         spec = self.specs.get(key)
         cid = next(self.call_counter)
+        # an Optional value passed where the callee declares a plain type: the caller has checked it
+        # (obligation `arg_not_none`), the contract sees the unwrapped value
+        anns = {p.arg: p.annotation for p in fv.node.args.posonlyargs + fv.node.args.args + fv.node.args.kwonlyargs}
+        for pname, val in list(bound.items()):
+            if isinstance(val, Sym) and isinstance(val.ty, OptTy) and anns.get(pname) is not None:
+                dt = spec.arg_types.get(pname) or self.world.ann_to_ty(anns[pname], fv.modpath)
+                if dt is not None and not isinstance(dt, OptTy):
+                    if not self.entails(st, v_not(v_is_none(val))):
+                        self.obligations.append(Obligation(f"{self.cur_key}.call{cid}@{where}.{key.split('::')[1]}.arg_not_none.{pname}",
+                                                           "call-pre", list(st.hyps), z3_bool(v_not(v_is_none(val))), {"callee": key}))
+                    bound[pname] = v_unwrap(val)
         res, st2 = spec.apply_at_call(self, bound, st, f"{self.cur_key}.call{cid}@{where}")
         if st2 is None:
             return
